@@ -346,6 +346,14 @@ def tone_cases(rng, level, n):
                 cases.append(mk_case([(it, tone)], level, nd, 1, clusters_for(rng, k, 0), "tone-after"))
                 cases.append(mk_case([(("X", 0x61), 0), (it, tone), (("X", 0x62), 0)], level, nd, 1,
                                      clusters_for(rng, k + 2, 0), "tone-after-in-context"))
+    # the script is GUESSED (scr = 0) behind a leading private-use character, which has no script of its own and must not
+    # decide the guess: the Hangul run behind it is shaped by the Hangul shaper as if it stood alone
+    for it in fixed:
+        if it[0] == "X":
+            continue
+        k = len(item_chars(it)) + 1
+        for nd in (0, 1):
+            cases.append(mk_case([(("X", 0xE000), 0), (it, 0)], level, nd, 0, clusters_for(rng, k, 0), "guessed-script-behind-private-use"))
     for _ in range(n):
         items = []
         for _ in range(rng.randrange(1, 4)):
